@@ -69,6 +69,29 @@ def gen_cases(tier, seed):
                 s['mode'] = 'shutdown_plain'
                 s['trigger'] = 'immediate'
         cases.append({'base': base, 'dist': dist, 'victims': victims, 'style': style, 'exit': exit_mode})
+    # one transfer fails at its first request while 1-3 downloads are held back (gated until the process is quiescent, i.e. until
+    # shutdown is already waiting): the wait() loop of the manager leaves at the first failure, so only the order in which the
+    # stages are joined keeps the barrier
+    for i in range(80 if quick else 800):
+        n_dl = rng.choice([1, 2, 3])
+        cfg = dict(multipart_threshold=16, multipart_chunksize=8, io_chunksize=4, num_download_attempts=2)
+        cfg.update(gen.small_limits(rng, 3))
+        victim_kind, vextra = rng.choice([('delete', {}), ('copy', {}), ('upload', {'src': 'path'}), ('download', {'dst': 'seekable'})])
+        ts = [dict({'kind': victim_kind, 'size': 5}, **vextra)]
+        for j in range(n_dl):
+            ts.append({'kind': 'download', 'dst': rng.choice(['path', 'seekable', 'nonseekable', 'fifo']), 'size': rng.choice([5, 20, 33])})
+        order = list(range(len(ts)))
+        rng.shuffle(order)
+        ts = [ts[k] for k in order]
+        v = order.index(0)
+        first = {'delete': 'DeleteObject', 'copy': 'HeadObject', 'upload': 'PutObject', 'download': 'HeadObject'}[victim_kind]
+        base = {'seed': rng.randrange(1 << 30), 'min_part': 8, 'config': cfg, 'transfers': ts, 'mode': 'shutdown_plain', 'trigger': 'immediate',
+                'plan': {'gate': {'match': '/s3:GetObject', 'phase': rng.choice(['before', 'after']), 'policy': 'seeded'}}}
+        dist = copy.deepcopy(base)
+        dist['plan']['faults'] = [{'at': f't{v}/s3:{first}#0', 'phase': 'before', 'kind': 'exc', 'tag': f'FAULT-v{v}'}]
+        if victim_kind == 'download':
+            base['plan']['gate']['match'] = dist['plan']['gate']['match'] = '.read#'
+        cases.append({'base': base, 'dist': dist, 'victims': [v], 'style': 'first-fails-others-held', 'exit': 'shutdown_plain'})
     return cases
 
 
@@ -116,6 +139,13 @@ def run_case(case):
                 obs.events = obs.world.log.snapshot()
             r = e2e.hang_result(obs)
             r['summary']['run'] = name
+            if obs.hang == 'deadlock' and str(getattr(obs, 'hang_what', '')).startswith('result-after-shutdown'):
+                # shutdown returned, yet a transfer submitted before it never becomes done: result() blocks with the
+                # whole process quiescent
+                r['verdict'] = 'violated'
+                r['violations'] = [V(f'shutdown returned but a transfer submitted before it never finished: result() blocks with the process '
+                                     f'quiescent ({name} run; blocked in {e2e.lib_frames(obs.stacks)}; exceptions seen: '
+                                     f'{[t["exc"][:80] for t in obs.thread_exc][:2]})', sym='not-done-after-shutdown', run=name)]
             return r
         runs[name] = obs
     try:
